@@ -7,25 +7,6 @@ Local Open Scope char_scope.
 Definition tag (k:string) (l:list sx) : sx := SL (SA (s_ k) :: l).
 
 (* ---- big integers travel in hexadecimal (linear-time codecs; decimal text of Base.sx_Z is quadratic) *)
-Fixpoint pos_bits (p:positive) : list bool :=           (* least significant first *)
-  match p with xH => [true] | xO q => false :: pos_bits q | xI q => true :: pos_bits q end.
-Definition hexchar (a b c d:bool) : ascii :=             (* a = least significant *)
-  let n := ((if a then 1 else 0) + (if b then 2 else 0) + (if c then 4 else 0) + (if d then 8 else 0))%nat in
-  ascii_of_nat (if (n <? 10)%nat then 48 + n else 87 + n).
-Fixpoint nibbles (l:list bool) (acc:str) : str :=
-  match l with
-  | a :: b :: c :: d :: r => nibbles r (hexchar a b c d :: acc)
-  | [a; b; c] => hexchar a b c false :: acc
-  | [a; b] => hexchar a b false false :: acc
-  | [a] => hexchar a false false false :: acc
-  | [] => acc
-  end.
-Definition hex_of_Z (z:Z) : str :=
-  match z with
-  | Z0 => ["0"]
-  | Zpos p => nibbles (pos_bits p) []
-  | Zneg p => "-" :: nibbles (pos_bits p) []
-  end.
 Definition hexval (c:ascii) : option nat :=
   let n := nat_of c in
   if ((48 <=? n) && (n <=? 57))%nat then Some (n - 48)%nat
